@@ -15,11 +15,13 @@ from ..runner import Problem, drive
 ID = "C16"
 LEVEL = "exploration"
 RULE = (
-    "A pool of ~100 API calls (load_one / load_many on corpus files of every format, dump_one for "
+    "A pool of ~110 API calls (load_one / load_many on corpus files of all 25 format modules, with "
+    "an explicit format where the name does not select the module, e.g. extended XYZ; dump_one for "
     "all 13 formats incl. canary objects that read each module table - atomic number 0, every bond "
     "type, foreign basis conventions -, dump_many, write_input, conversions, overlap, failing "
     "calls). Reference = each call alone in a fresh interpreter (run twice with different "
-    "PYTHONHASHSEED, which must agree). Histories: Hypothesis draws sequences (with repetitions) of "
+    "PYTHONHASHSEED, which must agree). Pair sweeps: every dump-like call (thorough: every call) "
+    "followed by the whole pool in one interpreter. Histories: Hypothesis draws sequences (with repetitions) of "
     "pool calls, each executed in one fresh interpreter; schedules: the same sequences distributed "
     "over 2-16 threads with a 1 microsecond switch interval. Oracle: every call's digest (SNAP of "
     "the result | hash of the bytes written | exception class + normalised message) equals its "
@@ -135,8 +137,14 @@ def shard_pairs(ctx, part, nparts, prepared):
     pool, reference = prepared["pool"], prepared["reference"]
     writers = [i for i, c in enumerate(pool) if c["op"] in ("dump_one", "dump_many", "write_input", "convert") and str(i) in reference]
     everything = [i for i in range(len(pool)) if str(i) in reference]
+    firsts = writers
+    if ctx.tier == "thorough":
+        firsts = everything  # also every load-like call first (state leaking from one load to the next)
+    else:
+        # quick: loads with an explicitly given format (modules not reachable through a file name)
+        firsts = writers + [i for i in everything if i not in writers and "fmt" in pool[i] and pool[i]["op"].startswith("load")]
     k = 0
-    for a in writers:
+    for a in firsts:
         k += 1
         if k % nparts != part:
             continue
